@@ -311,6 +311,17 @@ func judgeBytes(in []byte) *vh.Violation {
 	if [32]byte(v.SigningMsg()) != vh.RefDigest(ref.BodyBytes) {
 		return vh.V("C05/decoded-digest-differs", "digest of decoded VAA differs from the reference digest")
 	}
+	// the decoded value owns its bytes: the caller's buffer may be reused for the next message
+	for i := range in {
+		in[i] ^= 0x5a
+	}
+	out2, _ := v.Marshal()
+	for i := range in {
+		in[i] ^= 0x5a
+	}
+	if !bytes.Equal(out2, input) || [32]byte(v.SigningMsg()) != vh.RefDigest(ref.BodyBytes) {
+		return vh.V("C05/decoded-vaa-aliases-input", "after the input buffer was overwritten, the decoded VAA re-encodes to other bytes / has another digest")
+	}
 	return nil
 }
 
